@@ -17,7 +17,7 @@ S7 = [0, 1, 8191, 8192, 8193, 16384, 16385]
 S10 = S7 + [24575, 24576, 24577]
 ENV = {k: v for k, v in os.environ.items() if k not in ("XZ_OPT", "XZ_DEFAULTS")}
 ENV["LC_ALL"] = "C"
-TMO = 60.0          # per process; a timeout is re-run once at 10x before it counts
+TMO = 30.0          # per process; a timeout is re-run once at 4x before it counts (a real run takes milliseconds; a hanging tree must not cost hours)
 
 
 # ---------------------------------------------------------------------------------------------------
@@ -41,7 +41,7 @@ def build(private_dir):
 
 def prun(cmd, stdin=None, stdout=subprocess.PIPE, cwd=None):
     """-> (rc, stdout bytes or b'', stderr text). rc None = hang (timed out twice)."""
-    for tmo in ((TMO * 10,) if isinstance(stdout, int) and stdout >= 0 else (TMO, TMO * 10)):   # a sink cannot be re-used
+    for tmo in ((TMO * 4,) if isinstance(stdout, int) and stdout >= 0 else (TMO, TMO * 4)):   # a sink cannot be re-used
         try:
             r = subprocess.run(cmd, stdin=stdin if stdin is not None else subprocess.DEVNULL, stdout=stdout,
                                stderr=subprocess.PIPE, env=ENV, cwd=cwd, timeout=tmo)
